@@ -135,7 +135,10 @@ PROPS = {
             'the presence protocol of SEQUENCE/SET writer and reader for any shape (C03/C05 drivers); open-type wrap == general length + padded content, reader ends exactly at the announced end',
             'unit uper (Verus, every constraint instantiation): 14 of 18 Writer and 17 of 19 Reader methods of the real impls and the descriptor impls: safety tier everywhere; functional API-level contracts outside a SEQUENCE scope for '
             'write_boolean / write_null / write_number / write_octet_string / write_bit_string / write_enumerated (bits == x691_*), read_boolean, read_number (constrained form), read_octet_string (fragment stream)',
-            'NOT PROVED, bounded stand-in only: the per-schema code emitted by walker.rs (its contract is ASSUMED at sequence::Constraint / choice::Constraint), the remaining API-level value contracts and the four restricted-string writers. '
+            'unit uper, COMPOSITIONAL: WritableType::x_enc / ReadableType::x_dec are trait-level spec functions with the contracts `scope None ==> appended bits == x_enc(v)` and `scope None ==> result == x_dec(input)`; the real descriptor impls '
+            '(writer: Boolean, NullT, Integer, OctetString, Enumerated, Option<T>, DefaultValue<T, C>, SequenceOf<T, C>; reader: Boolean, NullT, Integer with bounds, Enumerated, Option<T>) are verified against them, and the lemmas lemma_rt_desc_boolean / _integer / _enumerated / _option '
+            'prove dec(enc(v) ++ tail) == (v, len) for these codecs relative to an arbitrary prefix and tail (Option for ANY element codec that round trips), given the laws of the generated value types (n_from(n_i64(v)) == v, e_from(e_index(v)) == Some(v))',
+            'NOT PROVED, bounded stand-in only: the per-schema code emitted by walker.rs (its contract is ASSUMED at sequence::Constraint / choice::Constraint), the remaining reader-side compositional decoders (strings, SEQUENCE OF, DEFAULT) and the four restricted-string writers. '
             'Their composition is exercised on the zoo and the shape enumeration, never counted as discharged',
             'value round trip of fragmented OCTET/BIT STRING readers: safety + consumption proved, value equality via regression probes and search only',
             'known findings KF-C01-seqof-16k, KF-C01-string-16k, KF-C01-open-type-16k: sizes >= 16K elements (which the property explicitly includes) do not round trip for SEQUENCE OF, restricted strings and large extension additions',
